@@ -30,6 +30,7 @@ def secret_arm(fi):
 def check_selector(fi, arm, rule):
     item = fi.params[1]
     sel = None
+    from ..seqs import seq_of
     for s in arm.body:
         if isinstance(s, ast.Assign) and isinstance(s.value, ast.ListComp):
             comp = s.value
@@ -42,8 +43,9 @@ def check_selector(fi, arm, rule):
         rule.violation(where, fi.fq, norm(arm.body)[:120], "secret index is not expanded into an equality selector", "%s/selector" % fi.qual)
         return None
     s, name, g = sel
-    from ..flatten import resolutions
-    if "range(len(self.arr))" in resolutions(fi.node, g.iter) and not g.ifs:
+    # the selector as a sequence (sa/seqs.py): one flag `item == i` per position i of self.arr, in order
+    sq = seq_of(s.value, s, 0)
+    if sq is not None and sq.base == "self.arr" and not sq.rev and not g.ifs and norm(sq.elt) in ("%s == __i0" % item, "__i0 == %s" % item):
         rule.ok(fi.loc(s), fi.fq, norm(s), "selector covers every position")
     else:
         rule.violation(fi.loc(s), fi.fq, norm(s), "selector does not range over every position of the array (an element could "
@@ -60,6 +62,22 @@ def check_selector(fi, arm, rule):
         rule.violation(where, fi.fq, "; ".join(norm(c) for c in asserts) or "no assertion", "the selector is not constrained to "
                        "contain exactly one 1: an out-of-range index could be proven (selecting nothing)", "%s/sum1" % fi.qual)
     return name
+
+
+def selection_of(e):
+    """(cond, value if cond, value otherwise) of a selection, however it is spelled:
+       if_then_else(c, t, f)  |  t.__if_then_else__(f, c)  |  f + c * (t - f)"""
+    if isinstance(e, ast.Call) and norm(e.func).split(".")[-1] == "if_then_else" and len(e.args) == 3 and not e.keywords:
+        return e.args[0], e.args[1], e.args[2]
+    if isinstance(e, ast.Call) and isinstance(e.func, ast.Attribute) and e.func.attr == "__if_then_else__" and len(e.args) == 2:
+        return e.args[1], e.func.value, e.args[0]
+    if isinstance(e, ast.BinOp) and isinstance(e.op, ast.Add):
+        for f_, prod in ((e.left, e.right), (e.right, e.left)):
+            if isinstance(prod, ast.BinOp) and isinstance(prod.op, ast.Mult):
+                for c_, d_ in ((prod.left, prod.right), (prod.right, prod.left)):
+                    if isinstance(d_, ast.BinOp) and isinstance(d_.op, ast.Sub) and norm(d_.right) == norm(f_):
+                        return c_, d_.left, f_
+    return None
 
 
 def rule_access(repo, r1, r2, r3):
@@ -108,7 +126,10 @@ def rule_access(repo, r1, r2, r3):
         # ---- index agreement
         if fi is gi:
             reads = [c for s in arm.body for c in ast.walk(s) if isinstance(c, ast.Call) and norm(c.func).endswith("lin_comb")]
-            if reads and [norm(a) for a in reads[0].args] == [name, "self.arr"]:
+            from ..seqs import seq_of
+            sq_ = [seq_of(a, reads[0], 0) for a in reads[0].args] if reads and len(reads[0].args) == 2 else []
+            if sq_ and all(q is not None and q.base == "self.arr" and not q.rev and q.index_of is None for q in sq_) \
+                    and norm(sq_[0].elt) in ("%s == __i0" % item, "__i0 == %s" % item) and norm(sq_[1].elt) == "__e0":
                 r2.ok(fi.loc(reads[0]), fi.fq, norm(reads[0]), "inner product of the selector with the elements")
             else:
                 r2.violation(fi.loc(arm), fi.fq, "; ".join(norm(c) for c in reads) or "no lin_comb", "the value read is not the inner "
@@ -116,29 +137,29 @@ def rule_access(repo, r1, r2, r3):
         else:
             loops = [s for s in arm.body if isinstance(s, ast.For)]
             good = False
+            from ..seqs import resolve_at
+            val = fi.params[2]
             for lp in loops:
-                alias = {}
-                if norm(lp.iter) == "range(len(self.arr))" and isinstance(lp.target, ast.Name):
-                    ix = norm(lp.target)
-                elif norm(lp.iter) in ("enumerate(%s)" % name, "enumerate(self.arr)") and isinstance(lp.target, ast.Tuple) \
-                        and len(lp.target.elts) == 2:
-                    ix = norm(lp.target.elts[0])
-                    what = name if norm(lp.iter) == "enumerate(%s)" % name else "self.arr"
-                    alias[norm(lp.target.elts[1])] = "%s[%s]" % (what, ix)
-                else:
-                    continue
-                for st in lp.body:
-                    if isinstance(st, ast.Assign) and norm(st.targets[0]) == "self.arr[%s]" % ix and isinstance(st.value, ast.Call) \
-                            and norm(st.value.func).endswith("if_then_else") and len(st.value.args) == 3:
-                        a = [alias.get(norm(x), norm(x)) for x in st.value.args]
-                        val = fi.params[2]
-                        if a == ["%s[%s]" % (name, ix), val, "self.arr[%s]" % ix]:
-                            good = True
-                            r2.ok(fi.loc(st), fi.fq, norm(st), "position ix takes the new value iff selector[ix], else keeps its own")
-                        else:
-                            good = True
-                            r2.violation(fi.loc(st), fi.fq, norm(st), "per-position selection is not if_then_else(selector[ix], new, "
-                                         "old[ix]) with one index", "%s/write" % fi.qual)
+                # every store into self.arr inside the loop, with index and value expressed in the position __i0 / the element
+                # __e0 of self.arr the loop is at (however the loop is written: range(len), enumerate, zip)
+                for st in ast.walk(lp):
+                    if not (isinstance(st, ast.Assign) and len(st.targets) == 1 and isinstance(st.targets[0], ast.Subscript)
+                            and norm(st.targets[0].value) == "self.arr"):
+                        continue
+                    idx, lps = resolve_at(fi.node, st, st.targets[0].slice)
+                    sq0 = lps[0][1] if lps else None
+                    if sq0 is None or sq0.base != "self.arr":
+                        continue
+                    v, _ = resolve_at(fi.node, st, st.value)
+                    selc = selection_of(v)
+                    want_c = ("%s == __i0" % item, "__i0 == %s" % item)
+                    good = True
+                    if norm(idx) == "__i0" and selc is not None and norm(selc[0]) in want_c and norm(selc[1]) == val \
+                            and norm(selc[2]) in ("__e0", "self.arr[__i0]"):
+                        r2.ok(fi.loc(st), fi.fq, norm(st), "position ix takes the new value iff selector[ix], else keeps its own")
+                    else:
+                        r2.violation(fi.loc(st), fi.fq, norm(st), "per-position selection is not if_then_else(selector[ix], new, "
+                                     "old[ix]) with one index", "%s/write" % fi.qual)
             if not good:
                 r2.violation(fi.loc(arm), fi.fq, norm(arm.body)[:120], "secret-index write is not a per-position selection over every "
                              "position", "%s/write-loop" % fi.qual)
@@ -176,6 +197,22 @@ def rule_rows(repo, rule):
         rule.ok(st.loc(), st.fq, norm(st.node.body)[:80], "assignment through a row view always raises")
     else:
         rule.violation(row.module.relpath, row.fq, "ArrayRow.__setitem__", "row views accept assignment", "rows/setitem")
+    # Array(x) is a copy: the constructor stores a list of its own on every path (the `row = Array(row)` step of a
+    # multi-dimensional write - and any user copy - must not write through to the operand)
+    init = ci.methods.get("__init__")
+    if init is not None:
+        stores = [a for a in ast.walk(init.node) if isinstance(a, ast.Assign) and len(a.targets) == 1
+                  and norm(a.targets[0]) == "%s.arr" % init.params[0]]
+        from ..flatten import resolve_locals as _rl15i
+        shared = [a for a in stores if not (
+            (isinstance(_rl15i(init.node, a.value), ast.Call) and norm(_rl15i(init.node, a.value).func) == "list")
+            or isinstance(_rl15i(init.node, a.value), (ast.List, ast.ListComp))
+            or (isinstance(_rl15i(init.node, a.value), ast.Subscript) and isinstance(_rl15i(init.node, a.value).slice, ast.Slice)))]
+        if stores and not shared:
+            rule.ok(init.loc(), init.fq, "; ".join(norm(a) for a in stores)[:120], "an Array owns its list: constructing one from another copies")
+        elif stores:
+            rule.violation(init.loc(shared[0]), init.fq, norm(shared[0]), "Array(x) can share x's list: the copy made before a multi-"
+                           "dimensional write (and any user copy) writes through to the array it was made from", "rows/ctor-shares")
     # multi-dimensional write
     item, val = si.params[1], si.params[2]
     tup = [n for n in ast.walk(si.node) if isinstance(n, ast.If) and norm(n.test) == "isinstance(%s, tuple)" % item and n is not si.node.body[0]]
@@ -185,13 +222,34 @@ def rule_rows(repo, rule):
         return
     body = tup[-1].body
     txt = [norm(s) for s in body]
-    it = None
+    # straight-line protocol over the arm: row <- self[item[0]] ; row made writable (Array(row) when it is an ArrayRow) ;
+    # row[item[1:]] = value ; self[item[0]] = row      (index expressions compared after substituting single-use locals)
+    from ..flatten import resolve_locals as _rl15
+
+    def R(e):
+        return norm(_rl15(si.node, e, keep={item, val}))
+    it, copied, written, stored, order = None, False, False, False, True
     for s in body:
-        if isinstance(s, ast.Assign) and norm(s.value) == "self[%s[0]]" % item:
-            it = norm(s.targets[0])
-    ok = it is not None and any("%s = Array(%s)" % (it, it) in t for t in txt) and \
-        any(t == "%s[%s[1:]] = %s" % (it, item, val) for t in txt) and any(t == "self[%s[0]] = %s" % (item, it) for t in txt)
-    order = ok and txt.index("%s[%s[1:]] = %s" % (it, item, val)) < txt.index("self[%s[0]] = %s" % (item, it))
+        if isinstance(s, ast.Assign) and len(s.targets) == 1 and isinstance(s.targets[0], ast.Name) and isinstance(s.value, ast.Subscript) \
+                and norm(s.value.value) == si.params[0] and R(s.value.slice) == "%s[0]" % item and it is None:
+            it = s.targets[0].id
+        elif it is not None and isinstance(s, ast.If) and norm(s.test) == "isinstance(%s, ArrayRow)" % it and not s.orelse \
+                and len(s.body) == 1 and norm(s.body[0]) == "%s = Array(%s)" % (it, it):
+            copied = True
+        elif it is not None and isinstance(s, ast.Assign) and norm(s.targets[0]) == it and isinstance(s.value, ast.IfExp) \
+                and norm(s.value.test) == "isinstance(%s, ArrayRow)" % it and norm(s.value.body) == "Array(%s)" % it and norm(s.value.orelse) == it:
+            copied = True
+        elif it is not None and isinstance(s, ast.Assign) and norm(s.targets[0]) == it and norm(s.value) == "Array(%s)" % it:
+            copied = True           # unconditional copy
+        elif it is not None and isinstance(s, ast.Assign) and isinstance(s.targets[0], ast.Subscript) and norm(s.targets[0].value) == it \
+                and R(s.targets[0].slice) == "%s[1:]" % item and norm(s.value) == val:
+            written = True
+            order = order and copied and not stored
+        elif it is not None and isinstance(s, ast.Assign) and isinstance(s.targets[0], ast.Subscript) and norm(s.targets[0].value) == si.params[0] \
+                and R(s.targets[0].slice) == "%s[0]" % item and norm(s.value) == it:
+            stored = True
+            order = order and written
+    ok = it is not None and copied and written and stored
     if ok and order:
         rule.ok(si.loc(tup[-1]), si.fq, "; ".join(txt)[:140], "row copied, written, stored back at item[0]")
     else:
